@@ -127,13 +127,19 @@ def gen_one(rng, routine, small=False, force=None):
         c['theta'] = given_theta(rng, c['models']) if need_theta(c) or rng.random() < 0.7 else None
         return c
     if routine == 'crossval':
-        kind = rng.choice(['k_fold', 'k_fold', 'k_fold_pattern', 'k_fold_rdm', 'loo_rdm', 'loo_pattern'])
+        kind = rng.choice(['k_fold', 'k_fold', 'k_fold_pattern', 'k_fold_rdm', 'loo_rdm', 'loo_pattern',
+                           'hand'])
         if force in ('reject', 'nonrandom'):
             kind = rng.choice(['k_fold', 'k_fold_pattern', 'k_fold_rdm'])
         if force == 'noceil':
             kind = 'k_fold_pattern'
+        plan = CV_PLANS.get(force)            # round 5: (generator, ceil_set given?, which axes are split)
+        if plan:
+            kind = plan[0]
         if kind in ('k_fold_rdm', 'loo_rdm'):
             gp = False                        # these generators advertise positions (`index`)
+        if plan and 'p' in plan[2] and kind in ('k_fold', 'hand', 'k_fold_pattern'):
+            gp = False                        # enough condition groups for two usable pattern folds
         c = base_case(rng, routine, rng.randint(3, 7), rng.randint(6, 10), pick_kinds(rng, True),
                       gr, gp, strs)
         if kind == 'loo_pattern':             # only sensible with larger groups of conditions
@@ -154,15 +160,32 @@ def gen_one(rng, routine, small=False, force=None):
         if kind in ('k_fold', 'k_fold_pattern'):
             g['kp'] = rng.randint(1, max(1, min(3, npat // 2)))
             g['random'] = rng.random() < 0.7
+        if plan and kind == 'k_fold':
+            g['kr'] = rng.randint(2, max(2, min(3, nr))) if 'r' in plan[2] else 1
+            g['kp'] = (2 if npat >= 6 else 1) if 'p' in plan[2] else 1
+        if plan and kind == 'k_fold_pattern':
+            g['kp'] = 2
+        if kind == 'hand':
+            g.update(hand_folds(rng, ctx.n_rdm, npat, plan[2] if plan else rng.choice(['r', 'p', 'rp', 'odd'])))
         if force == 'nonrandom' and 'random' in g:
             g['random'] = False
         if kind in ('k_fold', 'k_fold_pattern', 'k_fold_rdm') and (rng.random() < 0.12 or force == 'reject'):
             which = rng.choice([k for k in ('kr', 'kp') if k in g])
             g[which] = (nr if which == 'kr' else npat) + rng.randint(1, 2)   # refused by the generator
         c['gen'] = g
-        c['calc_nc'] = rng.random() < 0.85
+        c['calc_nc'] = rng.random() < 0.85 or bool(plan)
         if 'kp' in g and npat // g['kp'] < 3:
             c['calc_nc'] = False              # folds of < 3 conditions are NaN; their ceiling is undefined
+        # round 5: the public default `ceil_set=None` on the folds of EVERY generator and of hand-built
+        # splits (sets_k_fold_pattern returns no ceil set anyway)
+        if plan:
+            if not plan[1]:
+                c['ceil'] = 'omit'
+        elif rng.random() < 0.45:
+            c['ceil'] = 'omit'
+        form = rng.random()
+        if form < 0.12 or force == 'omit:nonbool':
+            c['calc_nc_form'] = rng.choice(['int', 'np'])
         c['fitter'] = rng.choice(['default', 'default', 'regress'])
         if c['fitter'] == 'regress' and c['method'] not in ('cosine', 'corr'):
             c['method'] = rng.choice(['cosine', 'corr'])
@@ -203,6 +226,80 @@ def gen_one(rng, routine, small=False, force=None):
     raise ValueError(routine)
 
 
+# round 5: forced classes of direct `crossval` calls: generator, `ceil_set` handed over?, split axes
+CV_PLANS = {
+    'omit:k_fold:rp': ('k_fold', False, 'rp'), 'omit:k_fold:r': ('k_fold', False, 'r'),
+    'omit:k_fold:p': ('k_fold', False, 'p'), 'omit:k_fold_rdm': ('k_fold_rdm', False, 'r'),
+    'omit:loo_rdm': ('loo_rdm', False, 'r'), 'omit:loo_pattern': ('loo_pattern', False, 'p'),
+    'omit:k_fold_pattern': ('k_fold_pattern', False, 'p'),
+    'omit:hand:r': ('hand', False, 'r'), 'omit:hand:rp': ('hand', False, 'rp'),
+    'omit:hand:p': ('hand', False, 'p'), 'omit:hand:odd': ('hand', False, 'odd'),
+    'omit:nonbool': ('k_fold_rdm', False, 'r'),
+    'given:hand:r': ('hand', True, 'r'), 'given:hand:rp': ('hand', True, 'rp'),
+    'given:hand:p': ('hand', True, 'p'), 'given:k_fold:rp': ('k_fold', True, 'rp'),
+    'given:k_fold_rdm': ('k_fold_rdm', True, 'r'), 'given:loo_rdm': ('loo_rdm', True, 'r'), 'given:loo_pattern': ('loo_pattern', True, 'p'),
+}
+_HAND_FORM = [0]
+
+
+def hand_folds(rng, n_rdm, npat, style):
+    """hand-built train / test splits as position lists: `r` RDM positions split into 2-3 chunks
+    (not aligned with the RDM groups), `p` the condition groups split in two halves, `rp` both,
+    `odd` shapes no generator makes: one single fold, test RDMs overlapping the training RDMs, a
+    test set of one RDM, unsorted test groups"""
+    rows = list(range(n_rdm))
+    rng.shuffle(rows)
+    pg = list(range(npat))
+    rng.shuffle(pg)
+    _HAND_FORM[0] += 1
+    out = {'idx_form': ['list', 'tuple', 'array'][_HAND_FORM[0] % 3]}
+    if npat >= 6 and style in ('p', 'rp', 'odd'):
+        h = rng.randint(3, npat - 3)
+        psplits = [(sorted(pg[h:]), sorted(pg[:h])), (sorted(pg[:h]), sorted(pg[h:]))]
+    else:
+        psplits = [(sorted(pg), sorted(pg))]
+    if style in ('r', 'rp') and n_rdm >= 2:
+        k = rng.randint(2, min(3, n_rdm))
+        chunks = [rows[i::k] for i in range(k)]
+        rsplits = [([r for r in rows if r not in ch], ch) for ch in chunks]
+    else:
+        rsplits = [(rows, rows)]
+    folds = [{'tr': sorted(tr), 'trp': trp, 'te': sorted(te), 'tep': tep}
+             for tr, te in rsplits for trp, tep in psplits]
+    if style == 'odd':
+        trp, tep = psplits[0]
+        tep = list(tep)
+        rng.shuffle(tep)                      # unsorted test groups
+        one = rows[:1] if rng.random() < 0.5 else rows[:max(1, n_rdm // 2)]
+        folds = [{'tr': sorted(rows), 'trp': trp, 'te': sorted(one), 'tep': tep}]   # overlap, one fold
+        if rng.random() < 0.5 and n_rdm >= 3:
+            folds.append({'tr': sorted(rows[1:]), 'trp': trp, 'te': sorted(rows[:2]), 'tep': sorted(tep)})
+    out['folds'] = folds
+    return out
+
+
+def cv_split(case, ctx):
+    """which axes the test sets of a crossval case are proper parts of: 'r', 'p', 'rp' or ''"""
+    g = case['gen']
+    kind = g['kind']
+    nr, npat = len(set(ctx.rdesc)), len(set(ctx.pdesc))
+    r = p = False
+    if kind == 'k_fold':
+        r, p = g['kr'] >= 2, g['kp'] >= 2
+    elif kind == 'k_fold_rdm':
+        r = g['kr'] >= 2
+    elif kind == 'loo_rdm':
+        r = nr >= 2
+    elif kind == 'k_fold_pattern':
+        p = g['kp'] >= 2
+    elif kind == 'loo_pattern':
+        p = npat >= 2
+    elif kind == 'hand':
+        r = any(len(f['te']) < ctx.n_rdm for f in g['folds'])
+        p = any(len(set(f['tep'])) < npat for f in g['folds'])
+    return ('r' if r else '') + ('p' if p else '')
+
+
 ROUTINES = ['fixed', 'bootstrap', 'bootstrap', 'crossval', 'bcv', 'bcv', 'dual', 'random', 'testset']
 
 
@@ -223,6 +320,11 @@ def generate(rng, tier):
             # every 6th repetition forces the rarer option classes (so the required branch tags
             # do not depend on luck); duplicates of a routine in ROUTINES take turns
             yield gen_one(rng, routine, force=forced.get((routine, (rep + slot) % 6)))
+    # round 5: direct `crossval` calls with / without `ceil_set` on the folds of every generator and on
+    # hand-built splits, every class on a fixed schedule
+    for rep in range({'quick': 2, 'thorough': 14}.get(tier, 2)):
+        for name in CV_PLANS:
+            yield gen_one(rng, 'crossval', force=name)
     # a stack with a single RDM and one with a single RDM group
     c = gen_one(rng, 'fixed')
     c['vecs'] = c['vecs'][:1]
@@ -305,7 +407,7 @@ def features(case, impl, obs=None):
         e = L.eff(case)
         br.append('k:1' if e['kr'] == 1 and e['kp'] == 1 else 'k:2+')
     if case['routine'] == 'crossval':
-        br.append('cv:noceil' if case['gen']['kind'] == 'k_fold_pattern' else 'cv:ceil')
+        br.append('cv:ceil' if L.ceil_given(case) else 'cv:noceil')
     br.append('method:' + case['method'])
     if ctx.n_rdm == 1:
         br.append('single_rdm')
@@ -324,6 +426,19 @@ def features(case, impl, obs=None):
         kinds = {f_['opt']['kind'] for f_ in o.get('fits', []) if f_.get('opt')}
         for k_ in kinds:
             br.append('fitcheck:' + k_)
+        if case['routine'] == 'crossval' and 'exc' not in impl and case.get('calc_nc', True) \
+                and any(x is not None for x in _flat(impl.get('nc'))):
+            # round 5: a ceiling was computed and stored: which path, on which kind of folds
+            how = 'ceil_set' if L.ceil_given(case) else 'no_ceil_set'
+            split = {'rp': 'both_split', 'r': 'rdm_split', 'p': 'pattern_only', '': 'no_split'}[cv_split(case, ctx)]
+            kind = case['gen']['kind']
+            br += [f'crossval:{how}:{split}', f'crossval:{how}:gen:{kind}']
+            if kind == 'hand':
+                br.append('crossval:hand:idx:' + case['gen'].get('idx_form', 'list'))
+                if any(set(f_['tr']) & set(f_['te']) for f_ in case['gen']['folds']) and 'r' in cv_split(case, ctx):
+                    br.append('crossval:hand:overlap')
+            if case.get('calc_nc_form'):
+                br.append('crossval:calc_nc:nonbool')
         if 'exc' in impl:
             f['exc'] = impl['exc']
         elif 'evals' in impl:
@@ -404,10 +519,26 @@ def shrink(case, still_fails):
             c['vecs'].pop()
             if c.get('rdm_groups') is not None:
                 c['rdm_groups'].pop()
+            if c.get('gen', {}).get('kind') == 'hand':
+                for f_ in c['gen']['folds']:
+                    f_['tr'] = [r for r in f_['tr'] if r < len(c['vecs'])]
+                    f_['te'] = [r for r in f_['te'] if r < len(c['vecs'])]
+                if any(not f_['tr'] or not f_['te'] for f_ in c['gen']['folds']):
+                    break
             if not attempt(c):
                 break
+        while cur.get('gen', {}).get('kind') == 'hand' and len(cur['gen']['folds']) > 1:
+            ok = False
+            for k in range(len(cur['gen']['folds'])):
+                c = copy.deepcopy(cur)
+                del c['gen']['folds'][k]
+                if attempt(c):
+                    ok = True
+                    break
+            if not ok:
+                break
         for k in ('rdm_groups', 'pat_groups'):
-            if cur.get(k) is not None:
+            if cur.get(k) is not None and cur.get('gen', {}).get('kind') != 'hand':
                 c = copy.deepcopy(cur)
                 c[k] = None
                 attempt(c)
